@@ -6,6 +6,7 @@ import random
 from . import engine, gen
 from .engine import H, run_scenario
 from .oracles_basic import C01, C02, C03
+from .oracles_tree import C04, C05, C06
 
 DEFAULTS = {
     "T_HOO": {"nu": 1, "rho": 0.5},
@@ -268,7 +269,7 @@ class CheckC01(Check):
     level_text = ("every API event of every simulated history is checked for totality (no exception, no step-budget overrun) and for the "
                   "in-box predicate; crashes that live in rarely reached states are searched by seeded exploration and reported as "
                   "minimised explicit histories")
-    oracles = (C01, C02)
+    oracles = (C01,)
     judged = {"C01"}
     sizes = {"quick": 6000, "thorough": 200000}
     budget_s = {"quick": 90, "thorough": 1500}
@@ -382,6 +383,86 @@ def gen_raw(r, seed):
             "rng": gen.gen_rng(r, seed, real_prob=0.15), "rewards": {"kind": "zero"}, "max_cells": 3000}
 
 
+class CheckC04(Check):
+    prop = "C04"
+    design_ref = "DESIGN.md 5.4"
+    oracles = (C04,)
+    sizes = {"quick": 3000, "thorough": 100000}
+    chunk = 30
+    technique = ("deterministic simulation: reward ledger (conservation / exactly-once) kept by the simulated client and diffed against "
+                 "every reachable cell and against recording base learners after every round")
+    level_text = ("after every receive_reward the evidence of every reachable cell is diffed against the pre-state and against the "
+                  "simulator's own ledger of which reward went to which cell / learner; seeded search over algorithms, partitions, reward "
+                  "programs and RNG outcomes")
+    rule = ("seeded swarm over all algorithms (wrappers over each base learner, with recording learners) x partitions x boxes x reward "
+            "programs x RNG policies; non-trivial = >= 10 rounds and >= 1 expansion; distinct = (algorithm[:base], partition, K, d, reward "
+            "kind, RNG policy, final leaf-set hash)")
+    assumptions = ["StroquOOL's restart of its final candidates' lists at the start of validation is the documented exception",
+                   "rounds after an algorithm terminated its own schedule (StroquOOL end, GPO after the last phase) need not be recorded",
+                   "reads node evidence through the getters / attributes named in the property's anchors"]
+    fault_kinds = CheckC01.fault_kinds
+    probe_names = ["stroquool-validation-restart", "stroquool-terminated", "gpo-validation-rounds", "gpo-rounds-after-schedule"]
+
+    def generate(self, r, seed, tier):
+        algo = gen.weighted(r, [("T_HOO", 2), ("HCT", 2), ("VHCT", 2), ("POO", 2), ("GPO", 2), ("PCT", 1), ("VPCT", 1),
+                                ("DOO", 1.5), ("SOO", 1.5), ("StoSOO", 2), ("SequOOL", 1.5), ("StroquOOL", 2), ("VROOM", 1),
+                                ("Zooming", 2)])
+        pool = gen.PARTS_BINARY_CHILD if algo == "VROOM" else None
+        n = r.choice([100, 128, 200, 300, 400])
+        sc = gen.base_scenario(r, seed, algo, parts=pool, n=n, cap_mode="big", ok_only=True,
+                               sched_prob=0.2 if algo in ("T_HOO", "HCT", "VHCT", "Zooming", "POO") else 0.0)
+        if algo in ("GPO", "PCT", "VPCT"):
+            d = derived(sc)
+            if d.get("gpo_L_zero"):
+                sc["params"]["rhomax"] = 0.9
+        return sc
+
+
+class CheckC05(Check):
+    prop = "C05"
+    design_ref = "DESIGN.md 5.5"
+    oracles = (C04, C05, C06)
+    judged = {"C05"}
+    sizes = {"quick": 1500, "thorough": 40000}
+    chunk = 12
+    technique = ("deterministic simulation: layered refinement check of U, B, path and stop rule, re-derived from the raw history after "
+                 "every round (nondeterministic specification with admissible sets)")
+    level_text = ("U of every cell is recomputed from the simulator's ledger, B from the observed U, the path from the observed B and the "
+                  "stop rule from the thresholds, after every round of seeded histories (also for base learners inside POO/GPO)")
+    rule = ("T_HOO/HCT/VHCT alone and as recorded base learners inside POO/GPO; tie-prone reward programs; T up to 600; non-trivial = "
+            ">= 10 rounds and >= 1 expansion; distinct = (algorithm[:base], partition, K, d, reward kind, RNG policy, final leaf-set hash)")
+    assumptions = ["delta-tilde conventions admitted: counter before or after the increment; cap 1/2 or 1 in the threshold (the code uses both)",
+                   "VHCT threshold may see the variance before or after the last reward",
+                   "relative tolerance 1e-9 (scaled by the largest |reward|) on recomputed U values; B relations exact on observed values"]
+    fault_kinds = CheckC01.fault_kinds
+    probe_names = ["c05-admissible-set-ambiguous", "c05-stop-at-internal-cell-admissible", "c05-refresh-round-with->=3-cells",
+                   "c05-pulled-internal-cell"]
+
+    def generate(self, r, seed, tier):
+        algo = gen.weighted(r, [("T_HOO", 3), ("HCT", 3), ("VHCT", 3), ("POO", 1.5), ("GPO", 1)])
+        n = r.choice([100, 128, 200, 300, 600]) if tier == "thorough" else r.choice([100, 128, 200, 300])
+        kinds = ["const", "int", "fewlevels", "gauss", "obj", "neg", "unit", "zero", "late", "altsign", "objneg"]
+        sc = gen.base_scenario(r, seed, algo, n=n, ok_only=True, reward_kinds=kinds, sched_prob=0.15 if algo != "GPO" else 0.0)
+        if algo == "GPO" and derived(sc).get("gpo_L_zero"):
+            sc["params"]["rhomax"] = 0.9
+        if algo in ("HCT", "VHCT") and r.random() < 0.4:
+            # parameter corner where thresholds are small and trees grow fast
+            sc["params"]["c"] = gen.loguniform(r, 0.02, 0.2)
+            sc["params"]["nu"] = gen.loguniform(r, 0.5, 5)
+        return sc
+
+
+class CheckC06(CheckC05):
+    prop = "C06"
+    design_ref = "DESIGN.md 5.6"
+    judged = {"C06"}
+    technique = ("deterministic simulation: growth rule evaluated on shadow state at every expansion and every non-expansion of seeded "
+                 "histories")
+    level_text = ("every round's expansion decision (both directions) is compared with the published truncation / threshold rule computed "
+                  "from the ledger; where and what grew is observed through the recording partition")
+    probe_names = ["c06-thoo-truncation-reached", "c06-decision-ambiguous", "c06-expansions-judged", "c06-pulled-internal-cell-not-resplit"]
+
+
 CHECKS = {}
 
 
@@ -389,5 +470,5 @@ def register(c):
     CHECKS[c.prop] = c()
 
 
-for _c_ in (CheckC01, CheckC02, CheckC03):
+for _c_ in (CheckC01, CheckC02, CheckC03, CheckC04, CheckC05, CheckC06):
     register(_c_)
